@@ -49,7 +49,21 @@ func (ctn Writer) ToCborWriter(w io.Writer) error {
 	if err != nil {
 		return err
 	}
-	return ipld.EncodeStreaming(w, node, dagcbor.Encode)
+	return ipld.EncodeStreaming(fullWriter{w}, node, dagcbor.Encode)
+}
+
+// fullWriter reports io.ErrShortWrite when the underlying writer takes fewer bytes than it
+// is given without returning an error, so that an incomplete output is never a success.
+type fullWriter struct {
+	w io.Writer
+}
+
+func (f fullWriter) Write(p []byte) (int, error) {
+	n, err := f.w.Write(p)
+	if err == nil && n < len(p) {
+		err = io.ErrShortWrite
+	}
+	return n, err
 }
 
 // ToCborBase64 encode the container into a base64 encoded DAG-CBOR binary format.
@@ -64,7 +78,7 @@ func (ctn Writer) ToCborBase64() ([]byte, error) {
 
 // ToCborBase64Writer is the same as ToCborBase64, but with an io.Writer.
 func (ctn Writer) ToCborBase64Writer(w io.Writer) error {
-	w2 := base64.NewEncoder(base64.StdEncoding, w)
+	w2 := base64.NewEncoder(base64.StdEncoding, fullWriter{w})
 	if err := ctn.ToCborWriter(w2); err != nil {
 		_ = w2.Close()
 		return err
@@ -85,7 +99,7 @@ func (ctn Writer) ToCar() ([]byte, error) {
 
 // ToCarWriter is the same as ToCar, but with an io.Writer.
 func (ctn Writer) ToCarWriter(w io.Writer) error {
-	return writeCar(w, nil, func(yield func(carBlock, error) bool) {
+	return writeCar(fullWriter{w}, nil, func(yield func(carBlock, error) bool) {
 		for c, data := range ctn {
 			if !yield(carBlock{c: c, data: data}, nil) {
 				return
@@ -106,7 +120,7 @@ func (ctn Writer) ToCarBase64() ([]byte, error) {
 
 // ToCarBase64Writer is the same as ToCarBase64, but with an io.Writer.
 func (ctn Writer) ToCarBase64Writer(w io.Writer) error {
-	w2 := base64.NewEncoder(base64.StdEncoding, w)
+	w2 := base64.NewEncoder(base64.StdEncoding, fullWriter{w})
 	if err := ctn.ToCarWriter(w2); err != nil {
 		_ = w2.Close()
 		return err
